@@ -418,7 +418,9 @@ func (k *ck) pool(types []utype, depth int) {
 const secret = "S3CR3T"
 
 func (k *ck) masking(maxTok int) {
-	tokens := []string{"a=1", "password=" + secret, "user=u", "x"}
+	// "password=#" is the masked form itself: a string that already holds it next to a real password
+	// (duplicated key) must come out without the real one, whichever occurrence is last
+	tokens := []string{"a=1", "password=" + secret, "user=u", "x", "password=#"}
 	seps := []string{" ", ";", "; ", " ;"}
 	var conns []string
 	// every token sequence up to maxTok with every choice of separator at every junction (a string may
@@ -466,27 +468,41 @@ func (k *ck) masking(maxTok int) {
 	for _, kd := range kinds {
 		// every version of the alphabet (each literal the sources compare Ver with, its neighbours,
 		// the family borders): the gate that decides on masking must be the family's, in every pack type
+		var wg sync.WaitGroup
+		sem := make(chan struct{}, 16)
 		for _, ver := range versions() {
-			for _, cs := range conns {
-				atomic.AddInt64(&k.evals, 1)
-				if strings.Contains(cs, secret) {
-					atomic.AddInt64(&k.nontriv, 1)
-				}
-				// through the wire, as the agent receives it: ToPack = Read + Process
-				p, _ := kd.mk(ver, cs)
-				b, _ := enc(p)
-				dec := udp.ToPack(p.GetPackType(), ver, b)
-				got := reflect.ValueOf(dec).Elem().FieldByName("Dbc").String()
-				fam := family(ver)
-				if fam == "go" || fam == "php" {
-					if strings.Contains(got, secret) {
-						k.viol(kd.name+":"+fam+":password-left", fmt.Sprintf("%s v%d: connection string %q keeps the password after Process(): %q", kd.name, ver, cs, got))
+			ver := ver
+			wg.Add(1)
+			sem <- struct{}{}
+			go func() {
+				defer func() { <-sem; wg.Done() }()
+				defer func() {
+					if r := recover(); r != nil {
+						k.viol(kd.name+":masking:panic", fmt.Sprintf("%s v%d: encoding, decoding or Process() of a connection string panicked: %v", kd.name, ver, r))
 					}
-				} else if got != cs {
-					k.viol(kd.name+":"+fam+":dbc-changed", fmt.Sprintf("%s v%d: connection string %q was altered to %q although this family does not send raw connection strings", kd.name, ver, cs, got))
+				}()
+				for _, cs := range conns {
+					atomic.AddInt64(&k.evals, 1)
+					if strings.Contains(cs, secret) {
+						atomic.AddInt64(&k.nontriv, 1)
+					}
+					// through the wire, as the agent receives it: ToPack = Read + Process
+					p, _ := kd.mk(ver, cs)
+					b, _ := enc(p)
+					dec := udp.ToPack(p.GetPackType(), ver, b)
+					got := reflect.ValueOf(dec).Elem().FieldByName("Dbc").String()
+					fam := family(ver)
+					if fam == "go" || fam == "php" {
+						if strings.Contains(got, secret) {
+							k.viol(kd.name+":"+fam+":password-left", fmt.Sprintf("%s v%d: connection string %q keeps the password after Process(): %q", kd.name, ver, cs, got))
+						}
+					} else if got != cs {
+						k.viol(kd.name+":"+fam+":dbc-changed", fmt.Sprintf("%s v%d: connection string %q was altered to %q although this family does not send raw connection strings", kd.name, ver, cs, got))
+					}
 				}
-			}
+			}()
 		}
+		wg.Wait()
 	}
 	// the other fields of the pack must not decide whether the password is masked: long SQL texts (the
 	// packs cap the query at 32 KiB) with the short connection strings
